@@ -604,6 +604,7 @@ func rangeKeyOf(v ssa.Value) ssa.Value {
 func checkWholeTableUpdates(c *Ctx, r *Run, fns []*ssa.Function) {
 	// 1. which map fields of round structs are filled from a caller's map (key set not under the session's control)
 	external := map[*types.Var]string{}
+	owned := map[*types.Var]string{}
 	for _, fn := range fns {
 		allInstrs(fn, func(in ssa.Instruction) {
 			st, ok := in.(*ssa.Store)
@@ -619,6 +620,12 @@ func checkWholeTableUpdates(c *Ctx, r *Run, fns []*ssa.Function) {
 			}
 			mk, ok := st.Val.(*ssa.MakeMap)
 			if !ok {
+				// the caller's map itself is kept in the round (no copy): every write to it changes the caller's object
+				if ownedBy := callerMapRoot(st.Val, 0); ownedBy != "" {
+					fv := fieldVar(derefType(fa.X.Type()), fa.Field)
+					external[fv] = c.FuncName(fn)
+					owned[fv] = ownedBy
+				}
 				return
 			}
 			for _, ref := range *mk.Referrers() {
@@ -666,6 +673,13 @@ func checkWholeTableUpdates(c *Ctx, r *Run, fns []*ssa.Function) {
 			if !isExt {
 				return
 			}
+			if what, isOwned := owned[fv]; isOwned {
+				nth++
+				r.Check("TABLE-2", fmt.Sprintf("%s|%s|update #%d writes the caller's table", c.FuncName(fn), fv.Name(), nth), c.Pos(mu.Pos()), false,
+					"the round works on its own copy of the caller's table",
+					"the round field "+fv.Name()+" is the caller's own map ("+what+", stored without a copy in "+from+"), and this statement writes into it: a refresh that is abandoned or retried has already rewritten the previous configuration's table, so the retry starts from a table that matches nobody's shares")
+				return
+			}
 			// the new value depends on the old entry
 			rmw := dependsOn(mu.Value, func(v ssa.Value) bool {
 				if lk, isL := v.(*ssa.Lookup); isL && sameErr(lk.X, mu.Map) {
@@ -700,4 +714,49 @@ func checkWholeTableUpdates(c *Ctx, r *Run, fns []*ssa.Function) {
 func isParam(v ssa.Value) bool {
 	_, ok := v.(*ssa.Parameter)
 	return ok
+}
+
+// callerMapRoot: v is (on some path) a map that belongs to the caller: a parameter or a captured variable of map type.
+func callerMapRoot(v ssa.Value, d int) string {
+	if d > 5 {
+		return ""
+	}
+	v = stripConv(v)
+	if _, isMap := v.Type().Underlying().(*types.Map); !isMap {
+		return ""
+	}
+	switch x := v.(type) {
+	case *ssa.Parameter:
+		return "parameter " + x.Name()
+	case *ssa.UnOp:
+		if x.Op == token.MUL {
+			if fv, ok := x.X.(*ssa.FreeVar); ok {
+				return "captured " + fv.Name()
+			}
+			if a, ok := x.X.(*ssa.Alloc); ok {
+				for _, st := range storesTo(a) {
+					if s := callerMapRoot(st, d+1); s != "" {
+						return s
+					}
+				}
+			}
+		}
+	case *ssa.Phi:
+		for _, e := range x.Edges {
+			if s := callerMapRoot(e, d+1); s != "" {
+				return s
+			}
+		}
+	}
+	return ""
+}
+
+func storesTo(a *ssa.Alloc) []ssa.Value {
+	var out []ssa.Value
+	for _, ref := range *a.Referrers() {
+		if st, ok := ref.(*ssa.Store); ok && st.Addr == ssa.Value(a) {
+			out = append(out, st.Val)
+		}
+	}
+	return out
 }
